@@ -204,7 +204,32 @@ func (f *Frame) enterLoop(li *loopInfo, b *ssa.BasicBlock) {
 		f.set(phi, nv)
 	}
 	if con != nil && len(lr.regions) > 0 {
-		f.cur.mem = f.havocRegions(f.cur.mem, lr.regions, false)
+		// written assigns clause: these regions, plus the function's own local variables that the
+		// loop body assigns (syntactic), are what the loop may change; every write in the body is
+		// checked against it (obligations frame@loopN:...)
+		f.loopLocalWrites = nil
+		f.loopWrites(li)
+		regs := append([]region{}, lr.regions...)
+		for _, lrg := range f.loopLocalWrites {
+			av, ok := f.vals[lrg.alloc]
+			if !ok {
+				continue
+			}
+			et := lrg.alloc.Type().Underlying().(*types.Pointer).Elem()
+			lo := tb.Add(av[1], tb.BV(64, lrg.off))
+			regs = append(regs, region{obj: av[0], lo: lo, hi: tb.Add(lo, tb.BV(64, lrg.size)), sorts: u.W.layout.ElemSorts(et), cond: tb.True()})
+		}
+		f.cur.mem = f.havocRegions(f.cur.mem, regs, false)
+		if !f.spec {
+			lf := &loopFrame{owner: f, li: li, ord: li.ord, limit: tb.BVU(32, uint64(freshBase+lr.entryCtr+1)), regions: regs}
+			var keep []*loopFrame
+			for _, o := range f.loopFrames {
+				if !(o.owner == f && o.li == li) {
+					keep = append(keep, o)
+				}
+			}
+			f.loopFrames = append(keep, lf)
+		}
 	} else if con != nil && con.Flags["nowrite"] {
 		// nothing
 	} else {
@@ -702,6 +727,25 @@ func (f *Frame) loopWrites(li *loopInfo) (sorts []Sort, all bool, maps bool) {
 									hasAssigns = true
 								}
 							}
+							if ps, ok := assignsOnlyParams(con, cal); ok && !con.Flags["noframe"] && !con.Flags["assigns_all"] && fn == f.fn {
+								// the contract's frame is "the objects these pointer parameters point to"
+								for _, k := range ps {
+									arg := c.Args[k]
+									pt, isPtr := arg.Type().Underlying().(*types.Pointer)
+									if !isPtr {
+										all = true
+										continue
+									}
+									if root, off, _, ok := staticRegion(L, arg); ok {
+										if !li.body[root.Block()] {
+											f.loopLocalWrites = append(f.loopLocalWrites, localRegion{root, off, L.Size(pt.Elem())})
+										}
+										continue
+									}
+									add(L.ElemSorts(pt.Elem()))
+								}
+								continue
+							}
 							if hasAssigns || con.Flags["noframe"] {
 								all = true // (a noframe contract without an assigns clause may write anything)
 							}
@@ -750,4 +794,34 @@ func (f *Frame) loopWrites(li *loopInfo) (sorts []Sort, all bool, maps bool) {
 	}
 	scanFn(f.fn, li.body, 0)
 	return
+}
+
+// assignsOnlyParams: every assigns clause of the contract is a list of plain parameter names
+// (the objects those pointers designate). Returns the parameter indices.
+func assignsOnlyParams(con *Contract, fn *ssa.Function) ([]int, bool) {
+	var out []int
+	n := 0
+	for _, cl := range con.Clauses {
+		if cl.Kind != "assigns" {
+			continue
+		}
+		for _, item := range strings.Split(cl.Text, ",") {
+			item = strings.TrimSpace(item)
+			if item == "" {
+				continue
+			}
+			found := -1
+			for k, p := range fn.Params {
+				if p.Name() == item {
+					found = k
+				}
+			}
+			if found < 0 {
+				return nil, false
+			}
+			out = append(out, found)
+			n++
+		}
+	}
+	return out, n > 0
 }
